@@ -1188,4 +1188,33 @@ UNITS = UNITS + [U_SWEEP]
 # a load that the option readers accept must not make the numeric stage divide by zero: the constructors the readers call
 # are under contract with C08 (series RLC: no pole at a positive frequency, an explicit C = 0 is "no capacitor"; skin
 # effect: only positive conductivities are constructed); their obligations are part of this check as well
+
+# ---------------------------------------------------------------- the angle lists behind --theta / --phi for ANY count
+def t_angle_any_count(eng):
+    """The --theta/--phi reader hands any integer count to Angle (proved in the reader unit); the far-field stage of main then
+    calls Angle.angle_deg / angle_rad outside every handler.  Contract needed by the fail-safety property: for every integer
+    count, also zero and negative ones, and any finite start and increment, both return (an empty list of angles for a count
+    <= 0) and raise nothing."""
+    n = P + '/Angle.angle_deg[any count]/'
+    a = SObj('Angle', label='angle')
+    num = eng.getfield(a, 'number')
+    region = eng.choose(3)
+    eng.assume((r_cmp('<', num, 0), r_cmp('==', num, 0), r_cmp('>', num, 0))[region])
+    which = ('Angle.angle_deg', 'Angle.angle_rad')[eng.choose(2)]
+    eng.inline.add('Angle.angle_deg')
+    try:
+        eng.call_qual(which, [a])
+    except PyRaise as ex:
+        eng.oblige(n + 'raises-nothing-for-any-integer-count', False,
+                   detail='%s raises %s for a count %s' % (which, ex.cls, ('< 0', '== 0', '> 0')[region]))
+        eng.cover('angle-any-count-%d' % region)
+        return
+    eng.oblige(n + 'raises-nothing-for-any-integer-count', True)
+    eng.cover('angle-any-count-%d' % region)
+
+
+U_ANGCNT = Unit(P + '/Angle.angle_deg-any-count', ['Angle.angle_deg', 'Angle.angle_rad'], t_angle_any_count,
+                {**SCH, ('Angle', 'initial'): 'real', ('Angle', 'inc'): 'real', ('Angle', 'number'): 'int'})
+UNITS = UNITS + [U_ANGCNT]
+
 EXTRA_UNITS = [('contracts.C08', 'U_RLC'), ('contracts.C08', 'U_SKIN_INIT')]
